@@ -79,7 +79,41 @@ def run(name, checks):
     return out
 
 
+def table():
+    rows = ["| change | what it breaks (one line) | check | result |", "|---|---|---|---|"]
+    for name in sorted(os.listdir(SEEDED)):
+        d = os.path.join(SEEDED, name)
+        if not os.path.exists(os.path.join(d, "meta.json")):
+            continue
+        meta = json.load(open(os.path.join(d, "meta.json")))
+        res = json.load(open(os.path.join(d, "result.json"))) if os.path.exists(os.path.join(d, "result.json")) else {}
+        summ = meta.get("summary", "").replace("|", "/").replace("\n", " ")
+        summ = summ[:150] + ("…" if len(summ) > 150 else "")
+        if not res:
+            rows.append("| %s | %s | – | not run |" % (name, summ))
+        for c, r in sorted(res.items()):
+            vio = [l for l in r["lines"] if l.startswith("VIOLATION")]
+            if r["rc"] == 1 and vio:
+                how = "caught, " + ("theorem/correspondence broken, no failing input" if all(
+                    "no-failing-input-found" in l for l in vio) else "failing input replayed")
+            elif r["rc"] == 0:
+                how = "MISSED"
+            else:
+                how = "infrastructure failure (rc %s)" % r["rc"]
+            rows.append("| %s | %s | %s | %s |" % (name, summ, c, how))
+    print("\n".join(rows))
+
+
 if __name__ == "__main__":
+    if sys.argv[1] == "table":
+        table()
+    if sys.argv[1] == "runall":
+        for name in sorted(os.listdir(SEEDED)):
+            if os.path.exists(os.path.join(SEEDED, name, "patch.diff")) and (len(sys.argv) < 3 or name.startswith(tuple(sys.argv[2:]))):
+                try:
+                    run(name, [])
+                except AssertionError as e:
+                    print(name, "ERROR", e)
     if sys.argv[1] == "confirm":
         sys.exit(0 if confirm(sys.argv[2], sys.argv[3]) else 1)
     if sys.argv[1] == "run":
